@@ -79,5 +79,14 @@ def run(ctx):
                    fdb.where)
         ob.require(not finds or bool(guarded), 'decode_base58 looks characters up with .find() (returns -1) without a membership '
                    'guard that raises', fdb.where)
+    fba = p.get_function('helper.b58decode_addr')
+    with ctx.obligation('C10.ADDR', 'helper.b58decode_addr', None, fba.where) as ob:
+        summ = dict(X.DEFAULT_SUMMARIES)
+        pay = S('payload', type='bytes')
+        summ['helper.decode_base58_checksum'] = lambda ev_, fi, env, facts: (T.raw_op('CHK', env[fi.params[0]]), facts)
+        T.BYTES_OPS.add('CHK')
+        ev = Evaluator(p, 'ecdsa', summaries=summ)
+        v, _ = ev.call_function('helper.b58decode_addr', [s])
+        same_term(ob, v, T.slice_(T.raw_op('CHK', s), T.const(1), T.NONE), 'b58decode_addr is the checksummed payload without its version byte', fba.where)
     from . import loops
     loops.check_base58(ctx)
